@@ -201,6 +201,14 @@ func lineCase(iters, num string, tag string, withSpec bool) {
 		}
 	}
 	hx.Printf("obs %d sp=%s rf=%s ex=%s hx=%s\n", myid, sps, rf, exs, hxs)
+	// the multiprecision slow path alone (d.set + floatBits), whatever path atof64 took; chk=ok is the
+	// driver's self-check "mirrored slow path = specified slow path" (a model error shows as a K diff)
+	sb, sovf, sok, strunc := bytesconv.VerifSlowPath(nb)
+	sl := "syntax"
+	if sok {
+		sl = canon(math.Float64frombits(sb)) + ":" + map[bool]string{false: "ok", true: "range"}[sovf] + ":" + strconv.Itoa(b01(strunc))
+	}
+	hx.Printf("obs %d sl=%s chk=ok\n", myid, sl)
 
 	if withSpec {
 		srd := strings.Replace(strings.Replace(rd, "err:iters-syntax", "err:iters", 1), "err:iters-range", "err:iters", 1)
@@ -374,6 +382,86 @@ func hexRoundingFamily(r *hx.Rand, reps int) {
 		hexCase(m, e, false, false)
 		lineCase("1", fmt.Sprintf("0x%xp%d", m, e), "hexfam", true)
 	}
+}
+
+func hexOrDash(b []byte) string {
+	if len(b) == 0 {
+		return "-"
+	}
+	return hx.Hex(b)
+}
+
+// dshiftCase: the real decimal.Shift on a decimal given by digits / dp / trunc.
+func dshiftCase(digits string, dp int, trunc bool, k int) {
+	myid := id
+	id++
+	defer func() {
+		if r := recover(); r != nil {
+			hx.Printf("crash %d panic: %s\n", myid, strings.ReplaceAll(fmt.Sprint(r), "\n", " "))
+		}
+	}()
+	hx.Printf("case %d kind=dshift d=%s dp=%d trunc=%d k=%d tag=dshift\n", myid, hexOrDash([]byte(digits)), dp, b01(trunc), k)
+	d2, dp2, tr2 := bytesconv.VerifDecShift([]byte(digits), dp, trunc, k)
+	hx.Printf("obs %d d=%s dp=%d trunc=%d\n", myid, hexOrDash(d2), dp2, b01(tr2))
+}
+
+// dfbCase: the real decimal.floatBits.
+func dfbCase(digits string, dp int, neg, trunc bool) {
+	myid := id
+	id++
+	defer func() {
+		if r := recover(); r != nil {
+			hx.Printf("crash %d panic: %s\n", myid, strings.ReplaceAll(fmt.Sprint(r), "\n", " "))
+		}
+	}()
+	hx.Printf("case %d kind=dfb d=%s dp=%d neg=%d trunc=%d tag=dfb\n", myid, hexOrDash([]byte(digits)), dp, b01(neg), b01(trunc))
+	b, ovf, tr := bytesconv.VerifDecFloatBits([]byte(digits), dp, neg, trunc)
+	hx.Printf("obs %d bits=%016x ovf=%d trunc=%d\n", myid, b, b01(ovf), b01(tr))
+}
+
+func cheatsCase() {
+	t := bytesconv.VerifLeftCheats()
+	var parts []string
+	for _, e := range t {
+		i := strings.IndexByte(e, ':')
+		parts = append(parts, e[:i]+":"+hexOrDash([]byte(e[i+1:])))
+	}
+	hx.Printf("case %d kind=cheats tag=table\n", id)
+	hx.Printf("obs %d n=%d tab=%s\n", id, len(t), strings.Join(parts, ","))
+	id++
+}
+
+func randDecimalDigits(r *hx.Rand) string {
+	var nd int
+	switch r.Intn(10) {
+	case 0:
+		nd = 780 + r.Intn(21) // at the buffer's edge
+	case 1:
+		nd = 100 + r.Intn(600)
+	case 2:
+		nd = 1
+	default:
+		nd = 1 + r.Intn(40)
+	}
+	ds := []byte(randDigits(r, nd))
+	if ds[0] == '0' && r.Chance(9, 10) {
+		ds[0] = byte('1' + r.Intn(9))
+	}
+	s := string(ds)
+	if r.Chance(4, 5) {
+		s = strings.TrimRight(s, "0")
+		if s == "" {
+			s = "1"
+		}
+	}
+	if r.Chance(1, 6) { // cheat-table boundaries: digits of 5^k, one below, one above
+		k := 1 + r.Intn(60)
+		p := new(big.Int).Exp(big.NewInt(5), big.NewInt(int64(k)), nil)
+		p.Add(p, big.NewInt(int64(r.Intn(3)-1)))
+		s = p.String() + hx.Pick(r, []string{"", "", "1", "0001", "999"})
+		s = strings.TrimRight(s, "0")
+	}
+	return s
 }
 
 func tableCase() {
@@ -785,6 +873,7 @@ func main() {
 	r := hx.NewRand(0xC03)
 
 	tableCase()
+	cheatsCase()
 
 	// fixed corpus: the witnesses and boundary literals run first, every time
 	for _, s := range maxNeighbourhood {
@@ -825,6 +914,41 @@ func main() {
 		}
 	}
 	hexRoundingFamily(r, hx.N(2, 12))
+
+	// decimal.Shift and floatBits on decimals given directly
+	for i := 0; i < hx.N(6000, 120000); i++ {
+		ds := randDecimalDigits(r)
+		dp := r.Intn(700) - 350
+		var k int
+		switch r.Intn(6) {
+		case 0:
+			k = hx.Pick(r, []int{60, -60, 61, -61, 120, -120, 121, -121, 1, -1, 53, 27, -27, 0})
+		case 1:
+			k = r.Intn(241) - 120
+		default:
+			k = r.Intn(121) - 60
+		}
+		if r.Chance(1, 30) {
+			ds = ""
+		}
+		dshiftCase(ds, dp, r.Chance(1, 8), k)
+	}
+	for i := 0; i < hx.N(3000, 60000); i++ {
+		ds := randDecimalDigits(r)
+		var dp int
+		switch r.Intn(4) {
+		case 0:
+			dp = hx.Pick(r, []int{-330, -331, -329, -323, -322, -307, -308, 308, 309, 310, 311, 0, 1})
+		case 1:
+			dp = r.Intn(40) - 20
+		default:
+			dp = r.Intn(680) - 340
+		}
+		if r.Chance(1, 40) {
+			ds = ""
+		}
+		dfbCase(ds, dp, r.Chance(1, 4), r.Chance(1, 10))
+	}
 
 	// rounding step of the slow path
 	for i := 0; i < hx.N(4000, 80000); i++ {
